@@ -12,8 +12,9 @@ from ..core import Phase, under_test, require
 ID = "C14"
 LEVEL = "exploration"
 RULE = (
-    "cases: datasets with 0-4 dimensions (sizes 1-3; int/float/str "
-    "coordinates or none), 1-3 variables of dtype int/float/complex/bool/str "
+    "cases: datasets with 0-4 dimensions (sizes 1-3; int64/int32/float64/"
+    "float32/str coordinates or none; the merge step adds labels that need "
+    "a wider dtype than the file holds), 1-3 variables of dtype int/float/complex/bool/str "
     "over subsets of the dimensions (incl. 0-d), NaN/inf patterns, attributes "
     "of int/float/str/None/True/False/number-list type; engine h5netcdf or "
     "joblib; names bare / .h5 / .dmp / .nc / in a directory with dots; chunks "
@@ -52,6 +53,12 @@ def build(case):
     for d, n, kind in case["dims"]:
         if kind == "int":
             coords[d] = [3 * i - 2 for i in range(n)]
+        elif kind == "int32":
+            coords[d] = np.array([3 * i - 2 for i in range(n)],
+                                 dtype=np.int32)
+        elif kind == "float32":
+            coords[d] = np.array([0.25 + 1.5 * i for i in range(n)],
+                                 dtype=np.float32)
         elif kind == "float":
             coords[d] = [0.25 + 1.5 * i for i in range(n)]
         elif kind == "str":
@@ -188,8 +195,14 @@ def run_case(case):
         if d0 is not None and case.get("merge"):
             extra = orig.copy(deep=True)
             c = extra[d0].values
-            shift = (np.array(["m%d" % i for i in range(len(c))])
-                     if c.dtype.kind in "UO" else c + 1000)
+            # new labels that do NOT fit what the file stored so far: longer
+            # strings, integers beyond 32 bits, floats needing 64 bits
+            if c.dtype.kind in "UO":
+                shift = np.array(["merged-%d" % i for i in range(len(c))])
+            elif c.dtype.kind in "iu":
+                shift = c.astype(np.int64) + 2 ** 40 + 7
+            else:
+                shift = c.astype(np.float64) + 1000.1
             extra = extra.assign_coords({d0: shift})
             extra.attrs = {}
             with under_test("save_merge_ds"):
@@ -203,7 +216,16 @@ def run_case(case):
                 for v in orig.data_vars:
                     if d0 not in orig[v].dims:
                         continue
-                    sel = both[v].sel({d0: lab_ds[d0].values})
+                    try:
+                        sel = both[v].sel({d0: lab_ds[d0].values})
+                    except KeyError:
+                        core.violated(
+                            "merge-lost-labels",
+                            f"after save_merge_ds the {what} dataset's "
+                            f"labels {lab_ds[d0].values.tolist()} of {d0} "
+                            f"are not in the file, which has "
+                            f"{both[d0].values.tolist()} ({name!r}, "
+                            f"{engine})")
                     require(same_values(lab_ds[v].values, sel.transpose(
                         *lab_ds[v].dims).values), "merge-lost-data",
                         f"after save_merge_ds the {what} dataset's {v} is "
@@ -250,7 +272,8 @@ def strategy(draw):
     dnames = draw(st.lists(st.sampled_from(["a", "b", "c", "d", "x"]),
                            min_size=nd, max_size=nd, unique=True))
     dims = [[d, draw(st.integers(1, 3)),
-             draw(st.sampled_from(["int", "float", "str", "int", "none"]))]
+             draw(st.sampled_from(["int", "float", "str", "int32", "float32",
+                                   "none"]))]
             for d in dnames]
     nv = draw(st.integers(1, 3))
     vars_ = []
